@@ -53,6 +53,33 @@ def c09_oracle(d, when):
     return out
 
 
+def c05_published_oracle(d, when):
+    """C05 at Master level: the identity published in /placement/<server>/<instance> is the one the
+    model holds, and no two published members of a group carry the same identity."""
+    out = []
+    z = d.z
+    cell = d.master.cell
+    seen = {}
+    for s in d.srv.children(z.PLACEMENT):
+        for a in d.srv.children(z.path.placement(s)):
+            app = cell.apps.get(a)
+            h = d.H.apps.get(a)
+            if app is None or h is None or not h['group'] or app.server != s:
+                continue
+            data = d.zkutils.get_default(d.admin, z.path.placement(s, a)) or {}
+            ident = data.get('identity')
+            if ident != app.identity:
+                out.append(oracles.V('C05', 'published-identity-differs-from-model:' + when,
+                                     '/placement/%s/%s publishes identity %r, the model holds %r' % (s, a, ident, app.identity)))
+            if ident is not None:
+                seen.setdefault((h['group'], ident), []).append(a)
+    for (g, ident), apps in seen.items():
+        if len(apps) > 1:
+            out.append(oracles.V('C05', 'published-duplicate-identity:' + when,
+                                 'identity %r of %s is published for %s' % (ident, g, sorted(apps))))
+    return out
+
+
 class MHistory:
     def __init__(self, ctx, rng, profile, props):
         self.ctx = ctx
@@ -207,6 +234,8 @@ class MHistory:
                 continue
             if p == 'C09':
                 vs = c09_oracle(d, when)
+            elif p == 'C05':
+                vs = oracles.ALL[p](rec) + c05_published_oracle(d, when)
             elif p in oracles.ALL:
                 vs = oracles.ALL[p](rec)
             else:
